@@ -6,7 +6,7 @@ wt=/tmp/wt/$pid; inc=/verif/seeded/_incoming/$pid
 out=$inc/confirm$k.json
 cd $wt || exit 2
 git checkout -q -- . ; 
-run() { (cd $wt && PYTHONPATH=$wt/src PYTHONHASHSEED=0 timeout 1800 /venv/bin/python -W ignore "$@"); }
+run() { (cd $wt && PYTHONPATH=$wt/src:$wt PYTHONHASHSEED=0 timeout 1800 /venv/bin/python -W ignore "$@"); }
 run $inc/demo$k.py > $inc/demo${k}_clean.log 2>&1; d0=$?
 git apply $inc/patch$k.diff || { echo "{\"applies\": false}" > $out; exit 1; }
 run $inc/demo$k.py > $inc/demo${k}_mut.log 2>&1; d1=$?
